@@ -50,6 +50,8 @@ REQUIRED = {
     "invariants_checked": 20000,
     "appends_of_collections": 100,
     "inplace_kinds_seen": 12,
+    "collections_with_repeated_field": 100,
+    "collections_from_mappings": 200,
 }
 SENT = 31337.25
 
@@ -248,9 +250,23 @@ def run_history(rng, res: ShardResult, hist_no: int):
                     continue
                 k = int(rng.integers(1, min(3, len(pool)) + 1))
                 chosen = [pool[i] for i in rng.choice(len(pool), size=k, replace=False)]
-                fc = pde.FieldCollection([h.obj for h in chosen], copy_fields=not link)
-                log.append(("FieldCollection", "copy_fields=" + str(not link), [describe(h) for h in chosen]))
-                register_collection(fc, fresh=not link, member_handles=chosen if link else None)
+                # input as list or as mapping {label: field}; the same field object may be given twice, in
+                # which case the documentation promises copies ("always copied if some fields are identical")
+                repeated = rng.random() < 0.2
+                if repeated:
+                    chosen = chosen + [chosen[0]]
+                    res.count("collections_with_repeated_field")
+                as_mapping = rng.random() < 0.4
+                keys = [f"k{i}" for i in range(len(chosen))]
+                arg = dict(zip(keys, (h.obj for h in chosen))) if as_mapping else [h.obj for h in chosen]
+                fc = pde.FieldCollection(arg, copy_fields=not link)
+                log.append(("FieldCollection", "mapping" if as_mapping else "list", "repeated field" if repeated else "", "copy_fields=" + str(not link), [describe(h) for h in chosen]))
+                if as_mapping:
+                    res.count("collections_from_mappings")
+                    if list(fc.labels) != keys:
+                        fail(f"collection built from a mapping has labels {list(fc.labels)}, keys were {keys}")
+                linked = link and not repeated
+                register_collection(fc, fresh=not linked, member_handles=chosen if linked else None)
             elif op == "slice":
                 if not colls:
                     continue
